@@ -194,6 +194,16 @@ fn probe_image(dir: &Path, cfg: &SpecCfg, names: &Names, cont_key: &str, cont_va
                     "reopened": reopened, "gets2": gets_after_reopen, "after": after_all}})
 }
 
+/// ["clock", secs]: the wall clock is stepped; not an operation of the store (no event, no call)
+fn clock_step(op: &[String]) -> bool {
+    if op[0] == "clock" {
+        shim::set_clock_skew(op[1].parse::<i64>().expect("clock skew"));
+        true
+    } else {
+        false
+    }
+}
+
 fn do_op(
     op: &[String],
     h: &mut bitcask::storage::bitcask::Handle,
@@ -258,18 +268,39 @@ fn op_event(ev: &str, op: &[String]) -> Value {
 
 /// crash / power: run once with recording, then probe every boundary.
 fn run_crash(b: &Behaviour, names: &Names, power: bool, max_points: usize, rng: &mut Rng, out: &mut TraceOut, pend: &Pending) -> (u64, u64) {
+    let (mut calls, mut probes, nfsync) = run_crash_with(b, names, power, max_points, None, rng, out, pend);
+    if power && nfsync > 0 {
+        // power loss meets a device that keeps refusing to sync: the fsync at a seeded position and the
+        // two after it fail.  Whatever the store does about that, what it acknowledges must be durable.
+        let first = rng.below(nfsync);
+        let (c, p, _) = run_crash_with(b, names, power, max_points.min(60), Some(first), rng, out, pend);
+        calls += c;
+        probes += p;
+    }
+    (calls, probes)
+}
+
+#[allow(clippy::too_many_arguments)]
+fn run_crash_with(b: &Behaviour, names: &Names, power: bool, max_points: usize, burst: Option<u64>, rng: &mut Rng, out: &mut TraceOut,
+                  pend: &Pending) -> (u64, u64, u64) {
+    shim::set_clock_skew(0);
     let sc = Scratch::new("fs");
     let dir = sc.path().to_path_buf();
     let knobs = Knobs { concurrency: 1, cache: 4 };
     shim::start(&dir, true);
     shim::set_skip_fsync(true);
+    if let Some(first) = burst {
+        shim::fail_fsync_burst(first, 3, libc::ENOSPC);
+    }
+    let mode = if burst.is_some() { "powerfault" } else if power { "power" } else { "crash" };
+    let run_id = match burst { Some(f) => format!("{}#burst{}", b.id, f), None => b.id.clone() };
     pend.set(&json!({"ev": "reset", "run": b.id, "phase": "op"}));
     let mut kv = match open_store(&dir, &b.cfg, knobs) {
         Ok(kv) => Some(kv),
         Err(e) => {
             shim::stop();
-            out.emit(&json!({"ev": "reset", "run": b.id, "cfg": b.cfg, "res": e, "mode": if power {"power"} else {"crash"}}));
-            return (0, 0);
+            out.emit(&json!({"ev": "reset", "run": run_id, "cfg": b.cfg, "res": e, "mode": mode}));
+            return (0, 0, 0);
         }
     };
     let mut h = kv.as_ref().unwrap().get_handle();
@@ -279,6 +310,15 @@ fn run_crash(b: &Behaviour, names: &Names, power: bool, max_points: usize, rng: 
     steps.push((json!({"ev": "inv", "op": "open"}), open_calls, json!({"ev": "ret", "op": "open", "res": "ok", "gets": read_all(&h, names)})));
     let _ = shim::take_calls();
     for op in &b.ops {
+        if clock_step(op) {
+            continue;
+        }
+        // the runs with failing fsyncs are about ONE process that keeps running until the power fails: a
+        // restart forgets which files an earlier failure left unsynced (DESIGN section 8), so it is not
+        // part of that scenario
+        if burst.is_some() && op[0] == "reopen" {
+            continue;
+        }
         let mut note = op_event("inv", op);
         note["run"] = json!(b.id);
         note["phase"] = json!("op");
@@ -302,7 +342,8 @@ fn run_crash(b: &Behaviour, names: &Names, power: bool, max_points: usize, rng: 
     pend.clear();
 
     // emit in program order with a probe after every call that changed the directory
-    out.emit(&json!({"ev": "reset", "run": b.id, "cfg": b.cfg, "res": "ok", "mode": if power {"power"} else {"crash"}}));
+    out.emit(&json!({"ev": "reset", "run": run_id, "cfg": b.cfg, "res": "ok", "mode": mode, "ops": b.ops, "burst": burst.map(|x| x as i64).unwrap_or(-1)}));
+    let nfsync: u64 = steps.iter().map(|s| s.1.iter().filter(|c| c.kind == "fsync").count() as u64).sum();
     let total_mut: usize = steps.iter().map(|s| s.1.iter().filter(|c| c.mutating()).count()).sum();
     // when there are more boundaries than the budget, probe a random subset (always the first few)
     let stride_keep = |idx: usize, rng: &mut Rng| -> bool {
@@ -380,7 +421,7 @@ fn run_crash(b: &Behaviour, names: &Names, power: bool, max_points: usize, rng: 
         }
         out.emit(ret);
     }
-    (ncalls, nprobe)
+    (ncalls, nprobe, nfsync)
 }
 
 /// fault: learn the number of mutating calls from a clean run, then fail each one once.
@@ -388,7 +429,8 @@ fn run_fault(b: &Behaviour, names: &Names, max_points: usize, rng: &mut Rng, out
     let knobs = Knobs { concurrency: 1, cache: 4 };
     // clean run to count the calls
     let total = {
-        let sc = Scratch::new("fs");
+        shim::set_clock_skew(0);
+    let sc = Scratch::new("fs");
         let dir = sc.path().to_path_buf();
         shim::start(&dir, false);
         shim::set_skip_fsync(true);
@@ -401,6 +443,9 @@ fn run_fault(b: &Behaviour, names: &Names, max_points: usize, rng: &mut Rng, out
         };
         let mut h = kv.as_ref().unwrap().get_handle();
         for op in &b.ops {
+            if clock_step(op) {
+                continue;
+            }
             let _ = do_op(op, &mut h, &mut kv, &dir, &b.cfg, names);
             if kv.is_none() {
                 break;
@@ -417,7 +462,8 @@ fn run_fault(b: &Behaviour, names: &Names, max_points: usize, rng: &mut Rng, out
             continue;
         }
         for (errno, ename) in [(libc::ENOSPC, "ENOSPC"), (libc::EIO, "EIO")] {
-            let sc = Scratch::new("fs");
+            shim::set_clock_skew(0);
+    let sc = Scratch::new("fs");
             let dir = sc.path().to_path_buf();
             shim::start(&dir, false);
             shim::set_skip_fsync(true);
@@ -425,7 +471,7 @@ fn run_fault(b: &Behaviour, names: &Names, max_points: usize, rng: &mut Rng, out
             pend.set(&json!({"ev": "reset", "run": b.id, "phase": "op", "fault": j}));
             let opened = open_store(&dir, &b.cfg, knobs);
             let open_calls = shim::take_calls();
-            out.emit(&json!({"ev": "reset", "run": format!("{}#f{}{}", b.id, j, ename), "cfg": b.cfg, "mode": "fault",
+            out.emit(&json!({"ev": "reset", "run": format!("{}#f{}{}", b.id, j, ename), "cfg": b.cfg, "mode": "fault", "ops": b.ops,
                              "fault": j, "errno": ename, "res": "ok"}));
             out.emit(&json!({"ev": "inv", "op": "open"}));
             for c in &open_calls {
@@ -457,6 +503,9 @@ fn run_fault(b: &Behaviour, names: &Names, max_points: usize, rng: &mut Rng, out
             out.emit(&json!({"ev": "ret", "op": "open", "res": "ok", "gets": read_all(&h, names)}));
             let _ = shim::take_calls();
             for op in &b.ops {
+                if clock_step(op) {
+                    continue;
+                }
                 let mut note = op_event("inv", op);
                 note["run"] = json!(b.id);
                 note["phase"] = json!("op");
